@@ -37,7 +37,8 @@ def run(ctx, factor):
         nops = g.pick([0, 1, 2, 3, 3, 4, 5])          # XOP/FMA4 instructions have four and five operands
         line["ops"] = [gen_lines.operand(g) for _ in range(nops)]
         line["gap"] = g.int(1, 5)
-        line["annot"] = g.pick([None, "sym+0x4"]) if nops and line["ops"][-1]["k"] == "target" else None
+        line["annot"] = g.pick([None, "sym+0x4", "Matrix<double>::rows() const", "Foo::operator->()", "void swap<int>(int&, int&)",
+                                "<T as Trait>::f+0x8", "operator>>(S&, int)", "a<b<c> >::d"]) if nops and line["ops"][-1]["k"] == "target" else None
         r = ctx.driver.call({"op": "linespec", "lines": [line]})["ok"]
         exp = r["expected"][0]
         pyexp = [py_normal(o) for o in line["ops"]]
